@@ -9,26 +9,27 @@ enum Act {
     Emit(u32),
 }
 
-/// sched <clock0> <b1,b2,...> <task>...   task = comma separated s<n> / e<v>, or - for an empty script
-pub fn run(w: &[&str]) -> String {
-    let clock0 = num(w[0]);
-    let budgets: Vec<u64> = w[1].split(',').map(num).collect();
-    let log: Rc<RefCell<Vec<(u64, usize)>>> = Rc::new(RefCell::new(Vec::new()));
-    let mut driver = AsyncDriver::with_clock(clock0);
-    for (tid, spec) in w[2..].iter().enumerate() {
-        let script: Vec<Act> = if *spec == "-" {
-            Vec::new()
-        } else {
-            spec.split(',')
-                .map(|a| {
-                    if let Some(n) = a.strip_prefix('s') {
-                        Act::Sleep(num(n))
-                    } else {
-                        Act::Emit(num(&a[1..]) as u32)
-                    }
-                })
-                .collect()
-        };
+type Log = Rc<RefCell<Vec<(u64, usize)>>>;
+
+fn parse_script(spec: &str) -> Vec<Act> {
+    if spec == "-" {
+        Vec::new()
+    } else {
+        spec.split(',')
+            .map(|a| {
+                if let Some(n) = a.strip_prefix('s') {
+                    Act::Sleep(num(n))
+                } else {
+                    Act::Emit(num(&a[1..]) as u32)
+                }
+            })
+            .collect()
+    }
+}
+
+fn spawn_tasks(driver: &mut AsyncDriver, specs: &[&str], log: &Log) {
+    for (tid, spec) in specs.iter().enumerate() {
+        let script = parse_script(spec);
         let lg = log.clone();
         driver.spawn(async move {
             lg.borrow_mut().push((current_cycle(), tid));
@@ -43,16 +44,78 @@ pub fn run(w: &[&str]) -> String {
             }
         });
     }
-    let mut res: Vec<String> = Vec::new();
-    for b in budgets {
-        let r = driver.run_for(b);
-        match r.event {
-            DriverEvent::MaxCycles => res.push(format!("M:{}", r.cycles_executed)),
-            DriverEvent::User(v) => res.push(format!("U{}:{}", v, r.cycles_executed)),
-        }
+}
+
+fn run_budget(driver: &mut AsyncDriver, b: u64, res: &mut Vec<String>) {
+    let r = driver.run_for(b);
+    match r.event {
+        DriverEvent::MaxCycles => res.push(format!("M:{}", r.cycles_executed)),
+        DriverEvent::User(v) => res.push(format!("U{}:{}", v, r.cycles_executed)),
     }
+}
+
+fn render(res: &[String], driver: &AsyncDriver, log: &Log) -> String {
     let l: Vec<String> = log.borrow().iter().map(|(c, t)| format!("{c}:{t}")).collect();
     format!("{} | clock={} | {}", res.join(";"), driver.clock(), l.join(","))
+}
+
+/// sched <clock0> <b1,b2,...> <task>...   task = comma separated s<n> / e<v>, or - for an empty script
+pub fn run(w: &[&str]) -> String {
+    let clock0 = num(w[0]);
+    let budgets: Vec<u64> = w[1].split(',').map(num).collect();
+    let log: Log = Rc::new(RefCell::new(Vec::new()));
+    let mut driver = AsyncDriver::with_clock(clock0);
+    spawn_tasks(&mut driver, &w[2..], &log);
+    let mut res: Vec<String> = Vec::new();
+    for b in budgets {
+        run_budget(&mut driver, b, &mut res);
+    }
+    render(&res, &driver, &log)
+}
+
+/// sched2 <order> <sched words of driver A> / <sched words of driver B>: two drivers alive on the same thread (they share the
+/// thread-local cycle / wake / event channel); order 0: A constructed and spawned, then B; order 1: both constructed, then both
+/// spawned; order 2: B constructed first.  The budgets are then issued alternately (A first).  Answer: A's answer || B's answer,
+/// each in the format of `sched` - a driver must behave exactly as it does alone.
+pub fn run2(w: &[&str]) -> String {
+    let order = num(w[0]);
+    let cut = w.iter().position(|x| *x == "/").unwrap();
+    let (wa, wb) = (&w[1..cut], &w[cut + 1..]);
+    let ba: Vec<u64> = wa[1].split(',').map(num).collect();
+    let bb: Vec<u64> = wb[1].split(',').map(num).collect();
+    let la: Log = Rc::new(RefCell::new(Vec::new()));
+    let lb: Log = Rc::new(RefCell::new(Vec::new()));
+    let (mut da, mut db);
+    match order {
+        0 => {
+            da = AsyncDriver::with_clock(num(wa[0]));
+            spawn_tasks(&mut da, &wa[2..], &la);
+            db = AsyncDriver::with_clock(num(wb[0]));
+            spawn_tasks(&mut db, &wb[2..], &lb);
+        }
+        1 => {
+            da = AsyncDriver::with_clock(num(wa[0]));
+            db = AsyncDriver::with_clock(num(wb[0]));
+            spawn_tasks(&mut da, &wa[2..], &la);
+            spawn_tasks(&mut db, &wb[2..], &lb);
+        }
+        _ => {
+            db = AsyncDriver::with_clock(num(wb[0]));
+            da = AsyncDriver::with_clock(num(wa[0]));
+            spawn_tasks(&mut db, &wb[2..], &lb);
+            spawn_tasks(&mut da, &wa[2..], &la);
+        }
+    }
+    let (mut ra, mut rb): (Vec<String>, Vec<String>) = (Vec::new(), Vec::new());
+    for i in 0..ba.len().max(bb.len()) {
+        if i < ba.len() {
+            run_budget(&mut da, ba[i], &mut ra);
+        }
+        if i < bb.len() {
+            run_budget(&mut db, bb[i], &mut rb);
+        }
+    }
+    format!("{} || {}", render(&ra, &da, &la), render(&rb, &db, &lb))
 }
 
 fn rt_digest(rt: &sc62015_core::CoreRuntime) -> String {
